@@ -23,7 +23,7 @@ RULES = {
 
 ASSUME = ['spec/layouts.json is a correct transcription of IEEE 1722-2016 / acf-vss.md (hand-checked, see DESIGN appendix A)',
           'values outside the stated lattices are not executed',
-          'four worlds: gcc -O2 (full lattice), gcc -O0 (the project\'s default build), gcc -O3 -DNDEBUG (CMake Release) and clang -O2, the latter three with the reduced lattice; other worlds are the subject of C14/C15']
+          'five worlds: gcc -O2 (full lattice), gcc -O0 (the project\'s default build), gcc -O3 -DNDEBUG (CMake Release), clang -O2 and clang -O1 with a 32-bit long (LLP64 data model), the latter four with the reduced lattice; other worlds are the subject of C14/C15']
 
 
 def build(prop, opt='-O2', fresh=True, defs=(), cc='gcc'):
@@ -34,6 +34,56 @@ def build(prop, opt='-O2', fresh=True, defs=(), cc='gcc'):
     nobjs = core.build_native(os.path.join(b, 'native'), g, ['common.c', 'explore_fields.c'])
     exe = core.link(os.path.join(b, 'explore_fields' + opt + ('' if cc == 'gcc' else cc)), nobjs + wobjs)
     return exe, rep
+
+
+def alias_contexts(res, bdir):
+    """C12: every legacy alias macro must name the same field whatever other public header was included before
+    the header that defines it (an alias that is only defined conditionally silently changes meaning)."""
+    import concurrent.futures as cf, glob
+    from gen.gen import load_spec
+    inc = os.path.join(core.REPO, 'include')
+    hs = sorted(os.path.relpath(p, inc) for p in glob.glob(os.path.join(inc, '**', '*.h'), recursive=True))
+    by = {}
+    for hdr, macro, fmt, fld in load_spec()['legacy_aliases']:
+        by.setdefault(hdr, []).append(macro)
+    d = os.path.join(bdir, 'aliasctx')
+    os.makedirs(d, exist_ok=True)
+
+    def probe(job):
+        L, H = job
+        tag = (L + '__' + (H or 'alone')).replace('/', '_').replace('.', '_')
+        src = os.path.join(d, tag + '.c')
+        with open(src, 'w') as f:
+            f.write('#include <stdio.h>\n' + ('#include "%s"\n' % H if H else '') + '#include "%s"\nint main(void){\n' % L)
+            for m in by[L]:
+                f.write('printf("%s %%lld\\n", (long long)(%s));\n' % (m, m))
+            f.write('return 0;}\n')
+        r = core.sh(['gcc', '-std=gnu99', '-w', '-I' + inc, src, '-o', src[:-2]])
+        if r.returncode != 0:
+            return job, None
+        return job, dict(l.split() for l in core.sh([src[:-2]]).stdout.splitlines())
+    jobs = [(L, None) for L in by] + [(L, H) for L in by for H in hs if H != L]
+    out = {}
+    with cf.ThreadPoolExecutor(core.NCPU) as ex:
+        for job, vals in ex.map(probe, jobs):
+            out[job] = vals
+    n = 0
+    for (L, H), vals in sorted(out.items(), key=lambda kv: (kv[0][0], kv[0][1] or '')):
+        alone = out[(L, None)]
+        if H is None:
+            if alone is None:
+                core.die_infra('alias probe for %s does not compile' % L)
+            continue
+        if vals is None:
+            continue        # the combination does not compile: that is C20's subject
+        n += 1
+        for m, v in vals.items():
+            if alone.get(m) != v:
+                res.viol[('C12', 'alias %s names another field when %s is included before %s' % (m, H, L))] = {
+                    'count': 1, 'case': 'C12:9:0:0:0:0:0:0', 'detail': '%s = %s with %s alone, %s after %s' % (m, alone.get(m), L, v, H), 'tag': 'include context'}
+    res.counters['cases'] = res.counters.get('cases', 0) + n
+    res.counters['transitions'] = res.counters.get('transitions', 0) + n
+    return n
 
 
 def make_replayer(exe, tier='quick'):
@@ -66,6 +116,14 @@ def run(prop, tier):
     # and by the other compiler (argument evaluation order, different folding of attributes)
     exec_, _ = build(prop, '-O2', fresh=False, cc='clang')
     res = core.run_slices(exec_, ['--suite', prop, '--tier', 'lite' if tier == 'quick' else 'quick'], timeout=timeout, result=res, tag='clang -O2')
+    if prop != 'C03':
+        # a host whose long is 32 bits wide (LLP64; constants like 1UL behave as on every 32-bit target)
+        from . import llp64
+        bdir = os.path.join(core.ROOT, 'build', prop)
+        exel = llp64.build(bdir, os.path.join(bdir, 'gen'), core.build_native(os.path.join(bdir, 'native'), os.path.join(bdir, 'gen'), ['common.c', 'explore_fields.c']), 'explore_fields')
+        res = core.run_slices(exel, ['--suite', prop, '--tier', 'lite' if tier == 'quick' else 'quick'], timeout=timeout, result=res, tag='llp64 (32-bit long)')
+    if prop == 'C12':
+        alias_contexts(res, os.path.join(core.ROOT, 'build', prop))
     if prop == 'C03':
         # guard pages only watch headers that end at a page boundary; the instrumented build (every load/store of the
         # library hooked, see C16) checks each access against the header extent at every address residue mod 8
